@@ -18,6 +18,7 @@ import PFV.Proofs.GenFrame
 import PFV.Proofs.GenWF
 import PFV.Proofs.GenCount
 import PFV.Proofs.GenAscii
+import PFV.Proofs.RandLawful
 import PFV.Api
 import PFV.Reach
 import PFV.Front
@@ -1017,6 +1018,51 @@ theorem bytes_ok {σ} (E : Entropy σ) (X : G.Ext) (c : Cfg) (hs : SafeCfg c) (h
     C01.accepted c hs.1 _ _ hrun, C02.memo_ok c hs.1 _ _ hrun, C03.typed_ok c hs.1 _ _ hrun,
     C05.ops_in_proto c (by omega) _ hrun, C05.header_ok c _ hrun, C10.optin c _ _ hrun⟩
 
+end EndToEnd
+
+/-! ## the seeded source: ChaCha8 + rand's samplers, ported exactly -/
+namespace C18
+
+/-- **C18 (seeded PRNG).**  The exact port of `ChaCha8Rng::seed_from_u64` and of the draws
+`GenerationSource::Rand` makes through rand 0.9 (`random::<T>()`, `random_range` with its
+widening-multiply sampler and bias correction, `try_fill_bytes`) satisfies the whole entropy
+contract in *every* generator state — whatever words the block function yields: an index among `n`
+is below `n` (0 for `n = 0`), a draw from `[a,b)` lies in it (`a` when `a ≥ b`), byte strings have
+the requested length, integers are inside their type's range, the rate draw is below 1. -/
+theorem rand_lawful : Lawful Rand.E := Rand.lawful
+
+end C18
+
+namespace C09
+/-- … and for every seed of the seeded mode (the CLI's `--seed`, `Generator::with_seed`) -/
+theorem total_seeded (X : G.Ext) (c : Cfg) (hmods : X.mods ≠ []) (hv : c.version < 6)
+    (hmin : c.minOps ≤ 2 ^ 63) (hmax : c.maxOps ≤ 2 ^ 63) (seed : Nat) :
+    ∃ r s', G.generate Rand.E X c (Rand.seed seed) = .ok (r, s') ∧ r.bytes ≠ [] :=
+  total Rand.E X c Rand.lawful hmods hv hmin hmax (Rand.seed seed)
+end C09
+
+namespace C04
+/-- the bytes a seeded generation returns are well-formed, for every seed and configuration -/
+theorem generated_bytes_well_formed_seeded (X : G.Ext) (c : Cfg) (hF : FloatOK X.fmt) (hM : ModsOK X.mods)
+    (hv : c.version ≤ 5) (seed : Nat) (s' : Rand.St) (r : G.Result)
+    (h : G.generate Rand.E X c (Rand.seed seed) = .ok (r, s'))
+    (hlen : (r.instrs.flatMap Enc.encode).length < 18446744073709551616) :
+    Spec.wellFormed r.bytes = true :=
+  G.generate_wf Rand.E X c Rand.lawful hF hM hv _ s' r h hlen
+end C04
+
+namespace EndToEnd
+/-- the capstone for seeded generation: every seed, safe configuration -/
+theorem bytes_ok_seeded (X : G.Ext) (c : Cfg) (hs : SafeCfg c) (hv : c.version ≤ 5)
+    (hmin : c.minOps < 4294967296) (hmax : c.maxOps ≤ 4294967296)
+    (hF : FloatOK X.fmt) (hM : ModsOK X.mods) (seed : Nat) (s' : Rand.St)
+    (r : G.Result) (h : G.generate Rand.E X c (Rand.seed seed) = .ok (r, s'))
+    (hlen : (r.instrs.flatMap Enc.encode).length < 18446744073709551616) :
+    ∃ is, Lex.lex r.bytes = .ok is ∧ Spec.wellFormed r.bytes = true ∧
+      Spec.stackOk is = true ∧ Spec.memoOk is = true ∧ Spec.typedOk is = true ∧
+      Spec.opsInProto c.version is = true ∧ Spec.headerOk c.version is = true ∧
+      Spec.optinOk c.allowExt c.allowBuf is = true :=
+  bytes_ok Rand.E X c hs hv hmin hmax Rand.lawful hF hM _ s' r h hlen
 end EndToEnd
 
 end PFV
